@@ -20,6 +20,8 @@ struct Ctx {
     helpers: BTreeMap<String, (Vec<String>, Vec<Piece>)>, // helper fn -> (value parameter names, pieces)
     kw: BTreeMap<String, Vec<(String, String)>>,
     problems: Vec<String>,
+    // free functions whose body is one expression of their parameters: unfolded at their call sites
+    pure_fns: BTreeMap<String, (Vec<String>, Expr)>,
 }
 
 fn path_str(p: &syn::Path) -> String {
@@ -124,6 +126,21 @@ impl Ctx {
                 Some(vec![Piece::Kw(table, var)])
             }
             Expr::Macro(m) if m.mac.path.is_ident("format") => self.format_macro(&m.mac, whr),
+            Expr::Call(c) => {
+                // a private one-expression function (e.g. a keyword table pulled out into its own fn): unfold it
+                if let Expr::Path(p) = &*c.func {
+                    if let Some((params, body)) = self.pure_fns.get(&path_str(&p.path)).cloned() {
+                        if params.len() == c.args.len() {
+                            let mut e2 = body;
+                            for (p, a) in params.iter().zip(c.args.iter()) {
+                                crate::canon::substitute(&mut e2, p, a);
+                            }
+                            return self.text(&e2, whr);
+                        }
+                    }
+                }
+                None
+            }
             _ => None,
         }
     }
@@ -341,6 +358,9 @@ fn struct_tail(cx: &mut Ctx, e: &Expr, whr: &str) -> Option<(Vec<Piece>, String)
 
 /// body = appending statements, then the tail
 fn body(cx: &mut Ctx, b: &Block, whr: &str) -> Option<(Vec<Piece>, String)> {
+    // let-normal form (canon.rs): renamed or hoisted locals, destructured parameters and field shorthand do not show
+    let nb = crate::canon::normalize_block(b);
+    let b = &nb;
     let n = b.stmts.len();
     if n == 0 {
         return None;
@@ -379,7 +399,31 @@ pub struct Output {
 pub fn translate(repo: &Path) -> Output {
     let src = std::fs::read_to_string(repo.join("imap-proto/src/builders/command.rs")).unwrap();
     let file = syn::parse_file(&src).unwrap();
-    let mut cx = Ctx { helpers: BTreeMap::new(), kw: BTreeMap::new(), problems: vec![] };
+    let mut cx = Ctx { helpers: BTreeMap::new(), kw: BTreeMap::new(), problems: vec![], pure_fns: BTreeMap::new() };
+    // pass 0: free functions that are one expression of their parameters
+    for item in &file.items {
+        if let Item::Fn(f) = item {
+            let nb = crate::canon::normalize_block(&f.block);
+            if nb.stmts.len() == 1 {
+                if let Stmt::Expr(e, None) = &nb.stmts[0] {
+                    let mut params = vec![];
+                    let mut ok = true;
+                    for a in &f.sig.inputs {
+                        match a {
+                            FnArg::Typed(t) => match &*t.pat {
+                                Pat::Ident(i) if i.by_ref.is_none() => params.push(i.ident.to_string()),
+                                _ => ok = false,
+                            },
+                            _ => ok = false,
+                        }
+                    }
+                    if ok {
+                        cx.pure_fns.insert(f.sig.ident.to_string(), (params, e.clone()));
+                    }
+                }
+            }
+        }
+    }
     let mut trans: Vec<Trans> = vec![];
     let mut finals: Vec<Final> = vec![];
     let mut ctors: Vec<Ctor> = vec![];
@@ -392,7 +436,7 @@ pub fn translate(repo: &Path) -> Output {
                 let whr = format!("fn {}", f.sig.ident);
                 let mut pieces = vec![];
                 let mut ok = true;
-                for s in &f.block.stmts {
+                for s in &crate::canon::normalize_block(&f.block).stmts {
                     match cx.stmt(s, &whr) {
                         Some(p) => pieces.extend(p),
                         None => ok = false,
